@@ -125,12 +125,16 @@ theorem runPasses_good (u : Text → Text) (fuel : Nat) (c : Cls) :
       obtain ⟨g2, n2⟩ := ih _ _ h g1
       exact ⟨g2, fun hne => n2 (n1 hne)⟩
 
+theorem groupWith_good {u : Text → Text} {fuel : Nat} {ks ks' : List Node} (h : groupWith u fuel ks = .ok ks')
+    (hg : goodL ks = true) : goodL ks' = true ∧ (ks ≠ [] → ks' ≠ []) := by
+  have hk : GoodKids .Statement ks := ⟨hg, fun hi => by cases hi⟩
+  obtain ⟨g, n⟩ := runPasses_good u fuel .Statement Gen.passOrder ks ks' h hk
+  exact ⟨g.1, n⟩
+
 /-- `grouping.group` preserves the well-formedness invariant (and non-emptiness of the statement) -/
 theorem group_good {fuel : Nat} {ks ks' : List Node} (h : group fuel ks = .ok ks') (hg : goodL ks = true) :
-    goodL ks' = true ∧ (ks ≠ [] → ks' ≠ []) := by
-  have hk : GoodKids .Statement ks := ⟨hg, fun hi => by cases hi⟩
-  obtain ⟨g, n⟩ := runPasses_good pyUpper fuel .Statement Gen.passOrder ks ks' h hk
-  exact ⟨g.1, n⟩
+    goodL ks' = true ∧ (ks ≠ [] → ks' ≠ []) :=
+  groupWith_good h hg
 
 /-- **no group of the grouped statement has an empty child list** (given a well-formed input; a flat
 statement is one) -/
